@@ -12,7 +12,24 @@ normaliser (norm_py) and a structural comparison: encode succeeds on the domain,
 decode(encode(v) + rest) == norm_py(v) with exactly len(rest) bytes left, k concatenated
 encodings decode one after another from one stream, values outside the domain raise and
 dumpb returns nothing.  Values whose dict keys / set elements contain a tuple are a separate,
-labelled class (D18)."""
+labelled class (D18).
+
+Oracle, part 2 (api_oracle / persist_oracle): the same claims through EVERY public encode/decode entry point —
+the process-wide tables (no registry= keyword), loadb on bytes and on streams, serialize_header / serialize /
+deserialize called directly, dumpz / loadz, SerializableEnum ==, !=, hash, name(), ordering after a trip, and the
+persistent format store_persistant / load_persistant / serialize_registry / deserialize_registry with the record
+written by the real writer in a process whose classes carry OTHER type ids (serlib.IdAssignment: swaps of two
+classes of the value, rotations, permutations, shifts, fresh ids) and variants of the stored table (as written,
+rebuilt independently, subset, unknown class names, reordered) — and, around every one of them, the process-level
+state clause: SerializableType.registry / names / next_type_id / custom_id, SerializableEnumType._enums, the type
+dispatch tables, the size caps and every registered class's type_id / _fields / class-level defaults / member tables are
+exactly what they were (serlib.process_state / StateGuard), and the ordinary dumpb/loadb trip of the same classes
+still holds afterwards.
+Units persist_load / persist_store (coq/Model/Persist.v, coq/Extract/U_Persist.v): load_persistant on a counting
+stream (value with this process's ids, bytes left, reads, and the two tables as the call left them — the model's
+reader only reads them) over records written under other id assignments, table variants (subset, unknown names,
+reordered, duplicate ids / names), truncations, bit flips and crafted tables (count / id / name of every value kind);
+store_persistant in a process with another id assignment."""
 import io, struct, ctypes, itertools
 from harness import lib
 from harness import serlib as SL
@@ -25,13 +42,21 @@ RULE = ("recursive value generator over None/bool/int/float/str/bytes/list/tuple
         "bytes, concatenations of 2-6 encodings; separate refused stream (wide ints, overflowing floats, "
         "surrogates, unsupported types, illegal enum values, over-long containers, nested anywhere); "
         "non-trivial = value nests a container or class, or sits on a width / rounding / code-point boundary, "
-        "or is refused")
+        "or is refused; every public entry point (process-wide tables, loadb on streams, serialize/deserialize, dumpz/loadz) on the "
+        "same values; persistent records written under other type-id assignments (swap / rotate / permute / shift / fresh ids, "
+        "stored-table variants subset / unknown names / reordered / duplicates, truncations, bit flips, crafted count/id/name of "
+        "every value kind) — non-trivial = a class of the value carries another id in the writer's process or the stream is not as written; "
+        "process-level state compared before/after every entry point")
 ASSUMPTIONS = [
     "values are finite trees (no cyclic containers) nested less deeply than the interpreter's recursion limit "
     "(theorems: need v <= fuel)",
     "CPython hash collisions between unequal dict keys / set elements are not modelled (an enum key and a "
     "non-enum key with equal hashes make SerializableEnum.__eq__ raise); generators do not mix them",
     "C13_roundtrip assumes norm v = SOk nv: dict keys / set elements are hashable after a trip (no tuple inside a key: D18)",
+    "the persistent format (Model/Persist.v) is modelled and tied by the units persist_load / persist_store, not covered by a theorem; "
+    "a SerializableEnum member used as a stored type id is outside that model (explicit error, such cases are counted and excluded)",
+    "process-level state = what serlib.process_state() lists (the metaclass tables and counters, the dispatch tables, the caps, "
+    "per class: type_id, _fields, annotations, class-level field defaults, enum member tables); other module globals are not watched",
 ]
 TRUSTED = [
     "Flocq 4.1 (binary_normalize, bits_of_b32) for struct.pack('>f'): theorems about flocq_fc inherit the "
